@@ -42,7 +42,7 @@ def shards(tier, seed):
     for lo, hi in year_ranges(tier):
         for a in range(lo, hi, step):
             out.append(('years', a, min(a + step, hi)))
-    out += [('small', 0, 0), ('triples', 0, 0), ('e2e', 0, 0), ('seq', 0, 0)]
+    out += [('small', 0, 0), ('triples', 0, 0), ('e2e', 0, 0), ('seq', 0, 0), ('variants', 0, 0)]
     return out
 
 
@@ -205,6 +205,64 @@ def run_triples(sv, res):
                 res.outcome('range-' + want)
 
 
+def run_variants(sv, res):
+    """The same verdicts whatever surrounds the three attributes: documents that are XHTML (attribute names are case-sensitive there, so MIN / MAX /
+    VALUE / TYPE are other attributes - decoys holding values that would flip the answer), real parsers, and inputs that are readonly, disabled or
+    inside a disabled fieldset (the property ties :in-range / :out-of-range to the type and the bounds only)."""
+    import bs4
+    XH = 'http://www.w3.org/1999/xhtml'
+    io, oo = sv.compile(':in-range'), sv.compile(':out-of-range')
+
+    def verdict(t, mn, mx, v):
+        pmn, pmx, pv_ = C.parse(t, mn), C.parse(t, mx), C.parse(t, v)
+        if pmn is None and pmx is None:
+            return 'neither'
+        return 'out' if C.out_of_range(t, pmn, pmx, pv_) else 'in'
+    for t, menu in MENU.items():
+        sub = [menu[0], menu[2], menu[3], None]
+        cases = [(mn, mx, v) for mn, mx, v in itertools.product(sub, repeat=3)]
+        far = menu[2]
+        variants = []
+        # XHTML built through the API, with decoys
+        specs = []
+        for mn, mx, v in cases:
+            a = [('type', t)] + [(k, x) for k, x in (('min', mn), ('max', mx), ('value', v)) if x is not None]
+            a += [(k, far) for k, x in (('MIN', mn), ('MAX', mx), ('VALUE', v)) if x is None] + [('TYPE', 'text'), ('Value', menu[0])]
+            specs.append(('e', 'input', tuple(a), (), (None, XH)))
+        variants.append(('xhtml-with-other-case-decoys', T.build_api((('e', 'html', (), (('e', 'body', (), (('e', 'form', (), tuple(specs), (None, XH)),), (None, XH)),), (None, XH)),), True)))
+        # plain inputs through real parsers, and flagged inputs
+        def markup(extra='', wrap=('', '')):
+            return '<form>' + wrap[0] + ''.join('<input type="%s"%s%s/>' % (t, ''.join(' %s="%s"' % (k, x) for k, x in (('min', mn), ('max', mx), ('value', v)) if x is not None), extra)
+                                                  for mn, mx, v in cases) + wrap[1] + '</form>'
+        with warnings.catch_warnings():
+            warnings.simplefilter('ignore')
+            variants.append(('html5lib', bs4.BeautifulSoup(markup(), 'html5lib')))
+            variants.append(('lxml', bs4.BeautifulSoup(markup(), 'lxml')))
+            variants.append(('xhtml-parsed', bs4.BeautifulSoup('<html xmlns="%s"><body>%s</body></html>' % (XH, markup(' VALUE="%s" MAX="%s"' % (far, menu[0]))), 'xml')))
+            variants.append(('readonly', bs4.BeautifulSoup(markup(' readonly=""'), 'html.parser')))
+            variants.append(('disabled', bs4.BeautifulSoup(markup(' disabled=""'), 'html.parser')))
+            variants.append(('in-disabled-fieldset', bs4.BeautifulSoup(markup('', ('<fieldset disabled=""><legend>l</legend>', '</fieldset>')), 'html.parser')))
+        for vname, soup in variants:
+            els = [e for e in T.elements(soup) if e.name == 'input']
+            try:
+                ins, outs = {id(e) for e in io.select(soup)}, {id(e) for e in oo.select(soup)}
+            except Exception as e:
+                res.fail({'layer': 'variant', 'type': t, 'variant': vname, 'min': None, 'max': None, 'value': None}, {'kind': 'raise', 'type': t, 'exc': type(e).__name__}, repr(e))
+                continue
+            for (mn, mx, v), el in zip(cases, els):
+                want = verdict(t, mn, mx, v)
+                got = 'both' if id(el) in ins and id(el) in outs else 'in' if id(el) in ins else 'out' if id(el) in outs else 'neither'
+                res.evaluations += 1
+                if want != 'neither':
+                    res.nontrivial += 1
+                if got != want:
+                    res.fail({'layer': 'variant', 'type': t, 'variant': vname, 'min': mn, 'max': mx, 'value': v},
+                             {'kind': 'range-in-context', 'type': t, 'want': want, 'got': got, 'context': vname},
+                             f'[{vname}] <input type={t} min={mn!r} max={mx!r} value={v!r}>: soupsieve {got}-of-range, HTML {want}')
+                else:
+                    res.outcome('variant-agrees')
+
+
 def run_e2e(sv, res):
     """The seam and the public route agree where it matters: week 53, 29 February, year boundaries."""
     strings = []
@@ -299,6 +357,8 @@ def run_shard(desc):
             run_small(pv, res)
     elif desc[0] == 'triples':
         run_triples(sv, res)
+    elif desc[0] == 'variants':
+        run_variants(sv, res)
     else:
         run_e2e(sv, res)
     return res
@@ -317,6 +377,13 @@ def replay(case):
         got, want = pv(t2, s2), C.parse(t2, s2)
         ok = (got is None) == (want is None) and (want is None or tuple(got) == tuple(want))
         return None if ok else ({'kind': 'history-dependent-validity'}, f'{got!r} vs {want!r}')
+    if case['layer'] == 'variant':
+        r = shard.Result()
+        run_variants(sv, r)
+        for f_ in r.failures:
+            if all(f_['case'].get(k) == case.get(k) for k in ('type', 'variant', 'min', 'max', 'value')):
+                return f_['sig'], f_['detail']
+        return None
     if case['layer'] == 'triple':
         t = case['type']
         attrs = [('type', t)] + [(k, case[k]) for k in ('min', 'max', 'value') if case[k] is not None]
